@@ -3,7 +3,7 @@ solver-handle hygiene, callbacks."""
 import ast
 
 from sa.core import rule
-from sa.ir import norm, dotted, call_name, recv_text, walk_local, names_in, calls_in_order, AnalysisError, Func
+from sa.ir import sig_body, norm, dotted, call_name, recv_text, walk_local, names_in, calls_in_order, AnalysisError, Func
 from sa.pe import specialise, truth_table
 from sa.sai import Interp, Domain, FALL, RAISE
 from sa.cg import callgraph, solve_path
@@ -504,7 +504,7 @@ def _full_field_getters(prog):
                 full_attr = recv_text(n).replace("self.", "")
     out = set()
     for name, f in rs.methods.items():
-        b = [x for x in f.node.body if not (isinstance(x, ast.Expr) and isinstance(x.value, ast.Constant))]
+        b = sig_body(f.node)
         if len(b) == 1 and isinstance(b[0], ast.Return) and norm(b[0].value) == "self." + str(full_attr):
             out.add(name)
     return out
